@@ -160,6 +160,7 @@ int main(int argc, char** argv) {
   for (auto& p : wn) for (int v = 0; v < 3; v++) cfs.push_back({p.first, p.second, v, 0});
   // POSIX allows cond_wait to return spuriously: the same protocol with one such return injected at every possible place
   { std::vector<std::pair<int, int>> sp = {{1, 2}, {2, 2}}; if (h.thorough) { sp.push_back({1, 3}); sp.push_back({2, 3}); sp.push_back({2, 4}); sp.push_back({3, 2}); } for (auto& p : sp) for (int v = 0; v < 3; v += 2) cfs.push_back({p.first, p.second, v, 1}); }
+  if (const char* pr = getenv("C12_PROBE")) { Config c{2, 2, 0, 0}; sscanf(pr, "%d,%d,%d,%d", &c.W, &c.nalpha, &c.variant, &c.spurious); cfs.assign(1, c); }   // experiments: one configuration
   h.add_space("configs", cfs.size(), [cfs](uint64_t i) { explore(cfs[i], 400000); });
   return h.main();
 }
